@@ -39,6 +39,14 @@ def make_cases(tier, rng):
         e1 = g.est(rng, first, "accept_first", gap=0)
         e2 = dict(g.est(rng, "p2h" if first == "h2p" else "h2p", "dial_first", gap=4000, start=2000), id=e1["id"])
         add("inproc", [e1, e2, g.est(rng, gap=0)], "same-number-both-ways")
+    # the ends of the id range: 0 (NextId never returns it, an application may pick it) and 2^32-1, each direction, either order
+    for pair in ["inproc", "process"]:
+        ests = []
+        for d in ["h2p", "p2h"]:
+            for id_ in [0, 4294967295]:
+                ests.append(dict(g.est(rng, d, rng.choice(["accept_first", "dial_first"]), gap=rng.choice([0, 50])), id=id_))
+        rng.shuffle(ests)
+        add(pair, ests + [g.est(rng, gap=0)], "extreme-ids")
     # an unmatched dial, then correctly established connections
     add("inproc", [g.est(rng, nopeer="dial_only"), g.est(rng, gap=0), g.est(rng, gap=100)], "unmatched")
     # ... in the same direction as the unmatched dial (whose knock gRPC repeats when the first one timed out)
